@@ -301,6 +301,7 @@ def reset_symbols():
     _fresh = itertools.count()
     _sqrt_cache.clear()
     _div_cache.clear()
+    _trig_cache.clear()
 
 
 def side_conditions(congruence=False):
@@ -356,6 +357,52 @@ def ssqrt(x):
     res = S(r)
     _sqrt_cache[key] = (res, a)
     return res
+
+
+def unfold_quot(q):
+    """(numerator, denominator) of a quotient symbol introduced by S._div, or None"""
+    t = S.lift(q).t
+    for (qq, num, den) in [v for v in _div_cache.values() if z3.is_expr(v[0])]:
+        if qq.eq(t):
+            return S(num), S(den)
+    return None
+
+
+def unfold_sqrt(r):
+    """radicand of a sqrt symbol introduced by ssqrt, or None"""
+    t = S.lift(r).t
+    for (res, a) in _sqrt_cache.values():
+        if isinstance(res, S) and res.t.eq(t):
+            return S(a)
+    return None
+
+
+_trig_cache = {}
+
+
+def trig(x):
+    """(cos x, sin x) as a pair of fresh reals c, s with the defining side condition c*c + s*s == 1 (one pair per semantically
+    distinct argument term; numerals are evaluated).  Addition theorems are instantiated by the contracts that need them."""
+    x = S.lift(x)
+    a, _ = S._arith(x, 0.0)
+    a = z3.simplify(a)
+    key = a.get_id()
+    if key in _trig_cache:
+        return _trig_cache[key][0], _trig_cache[key][1]
+    c0 = S(a).concrete()
+    if c0 is not None:
+        import math
+        if c0 == 0:
+            res = (S.lift(1.0), S.lift(0.0))
+        else:
+            res = (S.lift(math.cos(float(c0))), S.lift(math.sin(float(c0))))
+        _trig_cache[key] = (res[0], res[1], a)
+        return res
+    k = next(_fresh)
+    c, s_ = z3.Real('cos!%d' % k), z3.Real('sin!%d' % k)
+    _side.append(c * c + s_ * s_ == 1)
+    _trig_cache[key] = (S(c), S(s_), a)
+    return S(c), S(s_)
 
 
 def uf(name, *sorts):
